@@ -5,6 +5,7 @@ CONSTANTS
     MaxAlter = 1
     TamperFields = {"resign", "prev", "epoch", "avk", "params", "nextAvk", "nextParams", "sig"}
     MsgModes = {"k", "r"}
+    Twins = TRUE
     ForgeEpochs = {1, 2, 3, 4}
     Forge2Pars = {"p"}
     ForgeKeys = {"A", "H4"}
